@@ -72,7 +72,7 @@ proof fn lemma_markup_start<'i>(pre: ReaderState, buf: Seq<u8>, name_len: int, r
         writable_start(buf, name_len), buf.last() != 0x2f,
     ensures
         r matches Ok(Event::Start(e)) && e.buf@ == buf && e.name_len == name_len,
-        rem2 == rest, post.state is InsideText,
+        rem2 == rest, post.state is InsideText, post.config == pre.config,
         post.stack() == pre.stack().push(buf.subrange(0, name_len)),
 {
     reveal(markup_post);
@@ -90,7 +90,7 @@ proof fn lemma_markup_empty<'i>(pre: ReaderState, buf: Seq<u8>, name_len: int, r
         markup_post(pre, buf + seq![0x2fu8] + gt() + rest, post, rem2, r, false),
         writable_start(buf, name_len),
     ensures
-        rem2 == rest,
+        rem2 == rest, post.config == pre.config,
         if pre.config.expand_empty_elements {
             r matches Ok(Event::Start(e)) && e.buf@ == buf && e.name_len == name_len && post.state is InsideEmpty
                 && post.stack() == pre.stack().push(buf.subrange(0, name_len))
@@ -119,8 +119,9 @@ pub open spec fn writable_end(name: Seq<u8>) -> bool {
     name.len() > 0 && plain(name) && !is_ws(name.last())
 }
 /// the end tag closes the innermost open element (or unmatched ends are allowed)
-pub open spec fn end_accepted(pre: ReaderState, name: Seq<u8>) -> bool {
-    if pre.stack().len() > 0 { !pre.config.check_end_names || name == pre.stack().last() } else { pre.config.allow_unmatched_ends }
+pub open spec fn end_accepted(pre: ReaderState, name: Seq<u8>) -> bool { end_accepted_cs(pre.config, pre.stack(), name) }
+pub open spec fn end_accepted_cs(config: Config, stack: Seq<Seq<u8>>, name: Seq<u8>) -> bool {
+    if stack.len() > 0 { !config.check_end_names || name == stack.last() } else { config.allow_unmatched_ends }
 }
 /// `</` name `>` : an End event with that name
 proof fn lemma_markup_end<'i>(pre: ReaderState, name: Seq<u8>, rest: Seq<u8>,
@@ -130,7 +131,7 @@ proof fn lemma_markup_end<'i>(pre: ReaderState, name: Seq<u8>, rest: Seq<u8>,
         writable_end(name), end_accepted(pre, name),
     ensures
         r matches Ok(Event::End(e)) && e.name@ == name,
-        rem2 == rest, post.state is InsideText,
+        rem2 == rest, post.state is InsideText, post.config == pre.config,
         post.stack() == (if pre.stack().len() > 0 { pre.stack().drop_last() } else { pre.stack() }),
 {
     reveal(markup_post);
@@ -189,7 +190,7 @@ proof fn lemma_markup_comment<'i>(pre: ReaderState, c: Seq<u8>, rest: Seq<u8>,
         !pre.config.check_comments || forall|p: int| !double_hyphen_at(comment_open() + c + comment_close(), p),
     ensures
         r matches Ok(Event::Comment(e)) && e.content@ == c,
-        rem2 == rest, post.state is InsideText, post.stack() == pre.stack(),
+        rem2 == rest, post.state is InsideText, post.stack() == pre.stack(), post.config == pre.config,
 {
     lemma_comment_term(c, rest);
     reveal(markup_post);
@@ -240,7 +241,7 @@ proof fn lemma_markup_cdata<'i>(pre: ReaderState, c: Seq<u8>, rest: Seq<u8>,
         writable_cdata(c),
     ensures
         r matches Ok(Event::CData(e)) && e.content@ == c,
-        rem2 == rest, post.state is InsideText, post.stack() == pre.stack(),
+        rem2 == rest, post.state is InsideText, post.stack() == pre.stack(), post.config == pre.config,
 {
     lemma_cdata_term(c, rest);
     reveal(markup_post);
@@ -268,7 +269,7 @@ proof fn lemma_markup_pi<'i>(pre: ReaderState, c: Seq<u8>, rest: Seq<u8>,
     ensures
         if is_decl(c) { r matches Ok(Event::Decl(e)) && e.content.buf@ == c && e.content.name_len == 3 }
         else { r matches Ok(Event::PI(e)) && e.content.buf@ == c && e.content.name_len == spec_name_len(c) },
-        rem2 == rest, post.state is InsideText, post.stack() == pre.stack(),
+        rem2 == rest, post.state is InsideText, post.stack() == pre.stack(), post.config == pre.config,
 {
     reveal(markup_post);
     let body = qm() + c + qm();
@@ -290,13 +291,15 @@ proof fn lemma_markup_pi<'i>(pre: ReaderState, c: Seq<u8>, rest: Seq<u8>,
 
 // ---- one read-event call on the output of one write_event call ----
 /// an event within the documented preconditions of its constructor, in the reader state `pre`
-spec fn writable<'a>(pre: ReaderState, e: Event<'a>) -> bool {
+spec fn writable<'a>(pre: ReaderState, e: Event<'a>) -> bool { writable_cs(pre.config, pre.stack(), e) }
+/// ... which depends on the reader only through its configuration and the names of the open elements
+spec fn writable_cs<'a>(config: Config, stack: Seq<Seq<u8>>, e: Event<'a>) -> bool {
     match e {
         Event::Start(b) => writable_start(b.buf@, b.name_len as int) && b.buf@.last() != 0x2f,
-        Event::Empty(b) => writable_start(b.buf@, b.name_len as int) && !pre.config.expand_empty_elements,
-        Event::End(b) => writable_end(b.name@) && end_accepted(pre, b.name@),
+        Event::Empty(b) => writable_start(b.buf@, b.name_len as int) && !config.expand_empty_elements,
+        Event::End(b) => writable_end(b.name@) && end_accepted_cs(config, stack, b.name@),
         Event::Comment(t) => writable_comment(t.content@)
-            && (!pre.config.check_comments || forall|p: int| !double_hyphen_at(comment_open() + t.content@ + comment_close(), p)),
+            && (!config.check_comments || forall|p: int| !double_hyphen_at(comment_open() + t.content@ + comment_close(), p)),
         Event::CData(t) => writable_cdata(t.content@),
         Event::PI(p) => writable_pi(p.content.buf@) && !is_decl(p.content.buf@) && p.content.name_len == spec_name_len(p.content.buf@),
         Event::Decl(d) => writable_pi(d.content.buf@) && is_decl(d.content.buf@) && d.content.name_len == 3,
@@ -318,6 +321,14 @@ spec fn same_event<'a, 'i>(a: Event<'a>, b: Event<'i>) -> bool {
         _ => false,
     }
 }
+/// the names of the open elements after the event: a Start opens one, an End closes the innermost
+pub open spec fn stack_after<'a>(stack: Seq<Seq<u8>>, e: Event<'a>) -> Seq<Seq<u8>> {
+    match e {
+        Event::Start(b) => stack.push(b.buf@.subrange(0, b.name_len as int)),
+        Event::End(_) => if stack.len() > 0 { stack.drop_last() } else { stack },
+        _ => stack,
+    }
+}
 /// the bytes of render(e) after its '<'
 spec fn markup_tail<'a>(e: Event<'a>) -> Seq<u8> { render(e).subrange(1, render(e).len() as int) }
 
@@ -335,6 +346,8 @@ proof fn theorem_read_back<'a, 'i>(pre: ReaderState, rem: Seq<u8>, brem: Seq<u8>
         r matches Ok(ev) && same_event(e, ev),
         logical(post, rem2) == rest,
         !(post.state is InsideMarkup),
+        // ... and the reader is ready for the next event: between markup, same configuration, the element stack updated
+        post.state is InsideText, post.config == pre.config, post.stack() == stack_after(pre.stack(), e),
 {
     reveal(event_post);
     assert(!io_fail(pre, rem, post, r, false)) by { reveal(io_fail); }
@@ -434,6 +447,8 @@ proof fn theorem_read_back_text<'i>(pre: ReaderState, rem: Seq<u8>, brem: Seq<u8
     ensures
         r matches Ok(Event::Text(t)) && t.content@ == c,
         logical(post, rem2) == rest,
+        post.config == pre.config, post.stack() == pre.stack(),
+        rest.len() > 0 ==> post.state is InsideMarkup,
 {
     reveal(event_post);
     assert(!io_fail(pre, rem, post, r, false)) by { reveal(io_fail); }
@@ -470,6 +485,152 @@ proof fn theorem_read_back_text<'i>(pre: ReaderState, rem: Seq<u8>, brem: Seq<u8
 }
 
 // ---------------------------------------------------------------------------------------------
+// From one event to a document (C09): the induction over a sequence of events.
+// ---------------------------------------------------------------------------------------------
+/// what the writer produces for a sequence of events: the concatenation of their renderings
+spec fn doc<'a>(es: Seq<Event<'a>>) -> Seq<u8>
+    decreases es.len()
+{
+    if es.len() == 0 { Seq::empty() } else { render(es[0]) + doc(es.drop_first()) }
+}
+/// every event of the sequence can be read back where it stands: a markup event is `writable` in the configuration
+/// `config` with the elements `stack` open (the stack follows the events: stack_after); a Text event is non-empty,
+/// holds no '<', is followed by markup or by the end of the input (two adjacent texts would be read as one), and the
+/// trimming switches are off. `rest` is what follows the document.
+spec fn readable_doc<'a>(config: Config, stack: Seq<Seq<u8>>, es: Seq<Event<'a>>, rest: Seq<u8>) -> bool
+    decreases es.len()
+{
+    if es.len() == 0 { true } else {
+        let tail = doc(es.drop_first()) + rest;
+        &&& match es[0] {
+                Event::Text(t) => t.content@.len() > 0 && no_lt(t.content@) && (tail.len() == 0 || tail[0] == 0x3c)
+                    && !config.trim_text_start && !config.trim_text_end,
+                e => writable_cs(config, stack, e),
+            }
+        &&& readable_doc(config, stack_after(stack, es[0]), es.drop_first(), rest)
+    }
+}
+/// the rendering of a writable markup event starts with '<'
+proof fn lemma_render_starts_lt<'a>(config: Config, stack: Seq<Seq<u8>>, e: Event<'a>)
+    requires writable_cs(config, stack, e)
+    ensures render(e).len() > 0, render(e)[0] == 0x3c
+{
+}
+/// THEOREM (document read-back, C09). Let the unread input be `doc(es) ++ rest` for a readable sequence `es`, and
+/// let n = |es| consecutive read-event calls run, call k taking the reader from (sts[k], rems[k]) to
+/// (sts[k+1], rems[k+1]) with result res[k] -- each allowed by T01 (event_post) without an I/O fault. Then EVERY result
+/// is Ok(e') with e' the same event as es[k] (kind, payload, name length), and the unread input afterwards is `rest`.
+/// Induction on n over the one-call theorems above; nothing is assumed about the intermediate states.
+proof fn theorem_read_back_doc<'a, 'i>(es: Seq<Event<'a>>, rest: Seq<u8>,
+        sts: Seq<ReaderState>, rems: Seq<Seq<u8>>, brem: Seq<u8>, res: Seq<core::result::Result<Event<'i>, Error>>)
+    requires
+        sts.len() == es.len() + 1, rems.len() == es.len() + 1, res.len() == es.len(),
+        forall|k: int| 0 <= k < es.len() ==> event_post(sts[k], rems[k], brem, sts[k + 1], rems[k + 1], #[trigger] res[k], false),
+        sts[0].state is InsideText || (sts[0].state is InsideMarkup && !(es.len() > 0 && es[0] is Text)),
+        logical(sts[0], rems[0]) == doc(es) + rest,
+        readable_doc(sts[0].config, sts[0].stack(), es, rest),
+    ensures
+        forall|k: int| 0 <= k < es.len() ==> (#[trigger] res[k] matches Ok(ev) && same_event(es[k], ev)),
+        logical(sts[es.len() as int], rems[es.len() as int]) == rest,
+    decreases es.len()
+{
+    if es.len() == 0 {
+        assert(doc(es) + rest =~= rest);
+    } else {
+        let e = es[0];
+        let tl = es.drop_first();
+        let tail = doc(tl) + rest;
+        assert(doc(es) + rest =~= render(e) + tail);
+        assert(event_post(sts[0], rems[0], brem, sts[1], rems[1], res[0], false));
+        match e {
+            Event::Text(t) => {
+                assert(render(e) == t.content@);
+                assert(rems[0] == logical(sts[0], rems[0]));
+                theorem_read_back_text(sts[0], rems[0], brem, t.content@, tail, sts[1], rems[1], res[0]);
+                assert(stack_after(sts[0].stack(), e) == sts[0].stack());
+                if tl.len() > 0 {
+                    // a text is followed by markup: the next event is not a text (its first byte would not be '<')
+                    assert(doc(tl) =~= render(tl[0]) + doc(tl.drop_first()));
+                    if tl[0] is Text {
+                        assert(readable_doc(sts[0].config, sts[0].stack(), tl, rest));
+                        assert(render(tl[0]).len() > 0 && render(tl[0])[0] != 0x3c);
+                        assert(tail[0] == render(tl[0])[0]);
+                    }
+                    assert(tail.len() > 0) by {
+                        if !(tl[0] is Text) { lemma_render_starts_lt(sts[0].config, sts[0].stack(), tl[0]); }
+                    }
+                } else {
+                    assert(doc(tl) + rest =~= rest);
+                }
+            }
+            _ => {
+                theorem_read_back(sts[0], rems[0], brem, e, tail, sts[1], rems[1], res[0]);
+            }
+        }
+        // the rest of the run reads the rest of the document
+        let sts1 = sts.drop_first();
+        let rems1 = rems.drop_first();
+        let res1 = res.drop_first();
+        assert forall|k: int| 0 <= k < tl.len() implies event_post(sts1[k], rems1[k], brem, sts1[k + 1], rems1[k + 1], #[trigger] res1[k], false) by {
+            assert(res1[k] == res[k + 1]);
+            assert(event_post(sts[k + 1], rems[k + 1], brem, sts[k + 2], rems[k + 2], res[k + 1], false));
+        }
+        assert(sts1[0] == sts[1] && rems1[0] == rems[1]);
+        if tl.len() == 0 {
+            assert(doc(tl) + rest =~= rest);
+        } else {
+            theorem_read_back_doc(tl, rest, sts1, rems1, brem, res1);
+        }
+        assert(sts1[tl.len() as int] == sts[es.len() as int] && rems1[tl.len() as int] == rems[es.len() as int]);
+        assert forall|k: int| 0 <= k < es.len() implies (#[trigger] res[k] matches Ok(ev) && same_event(es[k], ev)) by {
+            if k > 0 { assert(res[k] == res1[k - 1] && es[k] == tl[k - 1]); }
+        }
+    }
+}
+
+/// the premise of the document theorem is not empty: `<a>x</a>` (Start, Text, End) is a readable document in every
+/// configuration with the trimming switches off, and `doc` of it is those seven bytes
+proof fn lemma_doc_witness<'a>(config: Config, st: BytesStart<'a>, t: BytesText<'a>, en: BytesEnd<'a>)
+    requires
+        st.buf@ == seq![0x61u8], st.name_len == 1, t.content@ == seq![0x78u8], en.name@ == seq![0x61u8],
+        !config.trim_text_start, !config.trim_text_end,
+    ensures
+        readable_doc(config, Seq::empty(), seq![Event::Start(st), Event::Text(t), Event::End(en)], Seq::empty()),
+        doc(seq![Event::Start(st), Event::Text(t), Event::End(en)]) == seq![0x3cu8, 0x61, 0x3e, 0x78, 0x3c, 0x2f, 0x61, 0x3e],
+{
+    let es = seq![Event::Start(st), Event::Text(t), Event::End(en)];
+    let es1 = es.drop_first();
+    let es2 = es1.drop_first();
+    let es3 = es2.drop_first();
+    assert(es1 =~= seq![Event::Text(t), Event::End(en)]);
+    assert(es2 =~= seq![Event::End(en)]);
+    assert(es3.len() == 0);
+    assert(doc(es3) =~= Seq::<u8>::empty());
+    assert(doc(es2) =~= seq![0x3cu8, 0x2f, 0x61, 0x3e]) by { assert(render(es2[0]) =~= seq![0x3cu8, 0x2f, 0x61, 0x3e]); }
+    assert(doc(es1) =~= seq![0x78u8, 0x3c, 0x2f, 0x61, 0x3e]) by { assert(render(es1[0]) =~= seq![0x78u8]); }
+    assert(doc(es) =~= seq![0x3cu8, 0x61, 0x3e, 0x78, 0x3c, 0x2f, 0x61, 0x3e]) by { assert(render(es[0]) =~= seq![0x3cu8, 0x61, 0x3e]); }
+    let a = seq![0x61u8];
+    // the start tag `a`
+    assert(built(a, 1));
+    lemma_tag_one(ElementParser::Outside, 0x61);
+    assert(tag_closed(a));
+    assert(writable_start(a, 1) && a.last() != 0x2f);
+    // the end tag closes it
+    let s1 = stack_after(Seq::<Seq<u8>>::empty(), es[0]);
+    assert(a.subrange(0, 1) =~= a);
+    assert(s1 =~= seq![a]);
+    assert(writable_end(a)) by { assert(plain(a)); }
+    assert(end_accepted_cs(config, s1, a));
+    assert(stack_after(s1, es1[0]) == s1);
+    assert(readable_doc(config, stack_after(s1, es2[0]), es3, Seq::empty()));
+    assert(readable_doc(config, s1, es2, Seq::empty()));
+    assert((doc(es2) + Seq::<u8>::empty())[0] == 0x3c);
+    assert(no_lt(seq![0x78u8]));
+    assert(readable_doc(config, s1, es1, Seq::empty()));
+    assert(readable_doc(config, Seq::empty(), es, Seq::empty()));
+}
+
+// ---------------------------------------------------------------------------------------------
 // The other direction (C08, second sentence): what was read, written again, is the input.
 // For every outcome event_post allows with an event `e` (trimming and empty-element expansion off), the bytes
 // consumed by the call are exactly render(e) -- so the writer, which appends render(e), reproduces them.
@@ -500,19 +661,19 @@ proof fn lemma_first_bang_term(ty: BangType, t: Seq<u8>, n: int)
 spec fn verbatim(c: Config) -> bool {
     !c.trim_text_start && !c.trim_text_end && !c.expand_empty_elements && !c.trim_markup_names_in_closing_tags
 }
-/// the markup step: '<' and the bytes it consumed are render(e)
-proof fn lemma_markup_consumes_render<'i>(pm: ReaderState, x: Seq<u8>, m: ReaderState, rem2: Seq<u8>, e: Event<'i>)
+/// ... for `<!` constructs (comment, CDATA; a DOCTYPE is excluded)
+proof fn lemma_consumes_bang<'i>(pm: ReaderState, x: Seq<u8>, m: ReaderState, rem2: Seq<u8>, e: Event<'i>)
     requires
         markup_post(pm, x, m, rem2, Ok(e), false),
         verbatim(pm.config), !(e is DocType),
+        x.len() > 0, x[0] == 0x21,
     ensures
         lt() + x == render(e) + rem2,
         !(m.state is InsideMarkup), !(e is Eof),
+        m.config == pm.config, !(m.state is Init), !(m.state is InsideEmpty),
 {
     reveal(markup_post);
     let r: core::result::Result<Event<'i>, Error> = Ok(e);
-    if x.len() == 0 {
-    } else if x[0] == 0x21 {
         match bang_kind(second(x)) {
             None => {}
             Some(kind) => {
@@ -538,7 +699,20 @@ proof fn lemma_markup_consumes_render<'i>(pm: ReaderState, x: Seq<u8>, m: Reader
                 }
             }
         }
-    } else if x[0] == 0x2f {
+}
+/// ... for an end tag
+proof fn lemma_consumes_end<'i>(pm: ReaderState, x: Seq<u8>, m: ReaderState, rem2: Seq<u8>, e: Event<'i>)
+    requires
+        markup_post(pm, x, m, rem2, Ok(e), false),
+        verbatim(pm.config), !(e is DocType),
+        x.len() > 0, x[0] == 0x2f,
+    ensures
+        lt() + x == render(e) + rem2,
+        !(m.state is InsideMarkup), !(e is Eof),
+        m.config == pm.config, !(m.state is Init), !(m.state is InsideEmpty),
+{
+    reveal(markup_post);
+    let r: core::result::Result<Event<'i>, Error> = Ok(e);
         match tag_end(ElementParser::Outside, x) {
             Some(i) => {
                 lemma_tag_bounds(ElementParser::Outside, x);
@@ -550,7 +724,20 @@ proof fn lemma_markup_consumes_render<'i>(pm: ReaderState, x: Seq<u8>, m: Reader
             }
             None => {}
         }
-    } else if x[0] == 0x3f {
+}
+/// ... for a processing instruction / XML declaration
+proof fn lemma_consumes_pi<'i>(pm: ReaderState, x: Seq<u8>, m: ReaderState, rem2: Seq<u8>, e: Event<'i>)
+    requires
+        markup_post(pm, x, m, rem2, Ok(e), false),
+        verbatim(pm.config), !(e is DocType),
+        x.len() > 0, x[0] == 0x3f,
+    ensures
+        lt() + x == render(e) + rem2,
+        !(m.state is InsideMarkup), !(e is Eof),
+        m.config == pm.config, !(m.state is Init), !(m.state is InsideEmpty),
+{
+    reveal(markup_post);
+    let r: core::result::Result<Event<'i>, Error> = Ok(e);
         lemma_pi_first(false, x);
         match pi_end(false, x) {
             Some(i) => {
@@ -564,7 +751,20 @@ proof fn lemma_markup_consumes_render<'i>(pm: ReaderState, x: Seq<u8>, m: Reader
             }
             None => {}
         }
-    } else {
+}
+/// ... for a start / empty-element tag
+proof fn lemma_consumes_tag<'i>(pm: ReaderState, x: Seq<u8>, m: ReaderState, rem2: Seq<u8>, e: Event<'i>)
+    requires
+        markup_post(pm, x, m, rem2, Ok(e), false),
+        verbatim(pm.config), !(e is DocType),
+        x.len() > 0, x[0] != 0x21 && x[0] != 0x2f && x[0] != 0x3f,
+    ensures
+        lt() + x == render(e) + rem2,
+        !(m.state is InsideMarkup), !(e is Eof),
+        m.config == pm.config, !(m.state is Init), !(m.state is InsideEmpty),
+{
+    reveal(markup_post);
+    let r: core::result::Result<Event<'i>, Error> = Ok(e);
         match tag_end(ElementParser::Outside, x) {
             Some(i) => {
                 lemma_tag_bounds(ElementParser::Outside, x);
@@ -581,6 +781,27 @@ proof fn lemma_markup_consumes_render<'i>(pm: ReaderState, x: Seq<u8>, m: Reader
             }
             None => {}
         }
+}
+/// the markup step: '<' and the bytes it consumed are render(e) (one lemma per construct: small solver queries)
+proof fn lemma_markup_consumes_render<'i>(pm: ReaderState, x: Seq<u8>, m: ReaderState, rem2: Seq<u8>, e: Event<'i>)
+    requires
+        markup_post(pm, x, m, rem2, Ok(e), false),
+        verbatim(pm.config), !(e is DocType),
+    ensures
+        lt() + x == render(e) + rem2,
+        !(m.state is InsideMarkup), !(e is Eof),
+        m.config == pm.config, !(m.state is Init), !(m.state is InsideEmpty),
+{
+    if x.len() == 0 {
+        reveal(markup_post);
+    } else if x[0] == 0x21 {
+        lemma_consumes_bang(pm, x, m, rem2, e);
+    } else if x[0] == 0x2f {
+        lemma_consumes_end(pm, x, m, rem2, e);
+    } else if x[0] == 0x3f {
+        lemma_consumes_pi(pm, x, m, rem2, e);
+    } else {
+        lemma_consumes_tag(pm, x, m, rem2, e);
     }
 }
 
@@ -593,6 +814,8 @@ proof fn theorem_read_then_write<'i>(pre: ReaderState, rem: Seq<u8>, brem: Seq<u
         verbatim(pre.config), !(e is DocType), !(pre.state is InsideEmpty),
     ensures
         (if pre.state is Init { brem } else { logical(pre, rem) }) == render(e) + logical(post, rem2),
+        // ... and the next call starts under the same conditions
+        post.config == pre.config, !(post.state is Init), !(post.state is InsideEmpty),
 {
     let r: core::result::Result<Event<'i>, Error> = Ok(e);
     reveal(event_post);
@@ -613,6 +836,46 @@ proof fn theorem_read_then_write<'i>(pre: ReaderState, rem: Seq<u8>, brem: Seq<u
         }
     }
 }
+/// THEOREM (C08, whole run). Let n consecutive read-event calls return the events es[0..n) -- call k taking the reader
+/// from (sts[k], rems[k]) to (sts[k+1], rems[k+1]), each allowed by T01 without an I/O fault --, with trimming and
+/// expansion off at the start and no DOCTYPE among the events. Then the input that was unread at the start (after the
+/// byte-order-mark sniff if the run begins a document) is doc(es) -- what the writer writes for these events, in
+/// order -- followed by what is unread at the end. Induction on n over theorem_read_then_write; the conditions on
+/// the intermediate states (same configuration, never back in Init, no pending synthetic End) are derived, not assumed.
+proof fn theorem_read_then_write_doc<'i>(sts: Seq<ReaderState>, rems: Seq<Seq<u8>>, brem: Seq<u8>, es: Seq<Event<'i>>)
+    requires
+        sts.len() == es.len() + 1, rems.len() == es.len() + 1,
+        forall|k: int| 0 <= k < es.len() ==> event_post(sts[k], rems[k], brem, sts[k + 1], rems[k + 1], Ok(#[trigger] es[k]), false),
+        forall|k: int| 0 <= k < es.len() ==> !(#[trigger] es[k] is DocType),
+        verbatim(sts[0].config), !(sts[0].state is InsideEmpty),
+        // (`brem`, the input after the byte-order-mark sniff, speaks about the first call of a document)
+        es.len() > 0 || !(sts[0].state is Init),
+    ensures
+        (if sts[0].state is Init { brem } else { logical(sts[0], rems[0]) }) == doc(es) + logical(sts[es.len() as int], rems[es.len() as int]),
+    decreases es.len()
+{
+    if es.len() == 0 {
+        assert(doc(es) =~= Seq::<u8>::empty());
+        assert(Seq::<u8>::empty() + logical(sts[0], rems[0]) =~= logical(sts[0], rems[0]));
+    } else {
+        let tl = es.drop_first();
+        let sts1 = sts.drop_first();
+        let rems1 = rems.drop_first();
+        assert(event_post(sts[0], rems[0], brem, sts[1], rems[1], Ok(es[0]), false));
+        theorem_read_then_write(sts[0], rems[0], brem, sts[1], rems[1], es[0]);
+        assert forall|k: int| 0 <= k < tl.len() implies event_post(sts1[k], rems1[k], brem, sts1[k + 1], rems1[k + 1], Ok(#[trigger] tl[k]), false) by {
+            assert(tl[k] == es[k + 1]);
+            assert(event_post(sts[k + 1], rems[k + 1], brem, sts[k + 2], rems[k + 2], Ok(es[k + 1]), false));
+        }
+        assert forall|k: int| 0 <= k < tl.len() implies !(#[trigger] tl[k] is DocType) by { assert(tl[k] == es[k + 1]); }
+        assert(sts1[0] == sts[1] && rems1[0] == rems[1]);
+        theorem_read_then_write_doc(sts1, rems1, brem, tl);
+        assert(sts1[tl.len() as int] == sts[es.len() as int] && rems1[tl.len() as int] == rems[es.len() as int]);
+        let end = logical(sts[es.len() as int], rems[es.len() as int]);
+        assert(doc(es) + end =~= render(es[0]) + (doc(tl) + end));
+    }
+}
+
 /// a string that holds a '<' has a first one
 proof fn lemma_first_lt_exists(s: Seq<u8>, n: int)
     requires 0 <= n <= s.len()
@@ -637,6 +900,7 @@ proof fn lemma_text_consumes_render<'i>(p1: ReaderState, input: Seq<u8>, m: Read
     ensures
         input == render(e) + (if e is Eof { rem2 } else { logical(m, rem2) }),
         e is Eof ==> m.state is Done,
+        m.config == p1.config, !(m.state is Init), !(m.state is InsideEmpty),
 {
     let r: core::result::Result<Event<'i>, Error> = Ok(e);
     reveal(text_post);
